@@ -5,13 +5,16 @@ import (
 	"errors"
 	"fmt"
 	"math"
+	"math/big"
 	"os"
 	"path/filepath"
+	"runtime/debug"
 	"sort"
 	"strings"
 	"sync/atomic"
 	"time"
 
+	"github.com/hashicorp/go-hclog"
 	"github.com/hashicorp/raft"
 	wal "github.com/hashicorp/raft-wal"
 	"github.com/hashicorp/raft-wal/metrics"
@@ -177,6 +180,7 @@ type walRun struct {
 	afterCrash  bool
 	faulted     bool // a fault was injected since the last Open
 	everFaulted bool
+	dirCodec    uint64            // codec id the directory was created with (0 = not yet)
 	acked       map[uint64]string // entries acknowledged and not covered by a later DeleteRange call
 	// per-open true totals for C20
 	tot map[string]uint64
@@ -272,17 +276,17 @@ func (r *walRun) open() string {
 	var w *wal.WAL
 	if r.mode == "r" {
 		if r.codecID != 1 {
-			w, err = wal.Open(r.dir, wal.WithSegmentSize(r.segSize), wal.WithMetricsCollector(r.t), wal.WithCodec(&idCodec{id: r.codecID}))
+			w, err = wal.Open(r.dir, wal.WithSegmentSize(r.segSize), wal.WithMetricsCollector(r.t), wal.WithLogger(hclog.NewNullLogger()), wal.WithCodec(&idCodec{id: r.codecID}))
 		} else {
-			w, err = wal.Open(r.dir, wal.WithSegmentSize(r.segSize), wal.WithMetricsCollector(r.t))
+			w, err = wal.Open(r.dir, wal.WithSegmentSize(r.segSize), wal.WithMetricsCollector(r.t), wal.WithLogger(hclog.NewNullLogger()))
 		}
 	} else {
 		sf := segment.NewFiler("d", r.cfs)
 		ms := &cmeta{fs: r.cfs}
 		if r.codecID != 1 {
-			w, err = wal.Open("d", wal.WithSegmentFiler(sf), wal.WithMetaStore(ms), wal.WithSegmentSize(r.segSize), wal.WithMetricsCollector(r.t), wal.WithCodec(&idCodec{id: r.codecID}))
+			w, err = wal.Open("d", wal.WithSegmentFiler(sf), wal.WithMetaStore(ms), wal.WithSegmentSize(r.segSize), wal.WithMetricsCollector(r.t), wal.WithLogger(hclog.NewNullLogger()), wal.WithCodec(&idCodec{id: r.codecID}))
 		} else {
-			w, err = wal.Open("d", wal.WithSegmentFiler(sf), wal.WithMetaStore(ms), wal.WithSegmentSize(r.segSize), wal.WithMetricsCollector(r.t))
+			w, err = wal.Open("d", wal.WithSegmentFiler(sf), wal.WithMetaStore(ms), wal.WithSegmentSize(r.segSize), wal.WithMetricsCollector(r.t), wal.WithLogger(hclog.NewNullLogger()))
 		}
 	}
 	if err != nil {
@@ -474,7 +478,12 @@ func execWal(c *ctx, line string) (obs string) {
 				if strings.Contains(fmt.Sprint(e), "invalid metric name") {
 					prop = "C20"
 				}
-				c.witness(prop, "wal-panic", fmt.Sprintf("panic: %v", e), line)
+				st := strings.ReplaceAll(string(debug.Stack()), "\n", " | ")
+				st = strings.ReplaceAll(st, "\t", " ")
+				if i := strings.Index(st, "panic("); i >= 0 {
+					st = st[i:]
+				}
+				c.witness(prop, "wal-panic", fmt.Sprintf("panic: %v @ %s", e, trunc(st, 900)), line)
 				done <- strings.Join(r.out, " ")
 			}
 		}()
@@ -529,6 +538,19 @@ func (r *walRun) run() string {
 			armed := r.cfs != nil && r.cfs.faultIn >= 0
 			res := r.open()
 			emit(res)
+			// codec identifiers (C12)
+			reserved := r.codecID != 1 && r.codecID < 65536
+			if res == "ok" {
+				if reserved {
+					r.c.witness("C12", "reserved-codec-id-accepted", fmt.Sprintf("Open accepts the reserved codec id %d", r.codecID), r.line)
+				} else if r.dirCodec == 0 {
+					r.dirCodec = r.codecID
+				} else if r.dirCodec != r.codecID {
+					r.c.witness("C12", "foreign-codec-id-accepted", fmt.Sprintf("directory written with codec id %d opens with codec id %d", r.dirCodec, r.codecID), r.line)
+				}
+			} else if !reserved && !armed && !r.everFaulted && (r.dirCodec == 0 || r.dirCodec == r.codecID) && !r.afterCrash {
+				r.c.witness("C12", "same-codec-refused", fmt.Sprintf("Open fails although the directory was written with the same codec id %d", r.codecID), r.line)
+			}
 			if res == "ok" {
 				if r.afterCrash {
 					r.checkRecovered("crash/restart + Open")
@@ -883,6 +905,14 @@ func (r *walRun) run() string {
 				keepBatch[fmt.Sprintf("%020d-%016x.wal", parseU(ops[p]), parseU(ops[p+1]))] = true
 				p += 2
 			}
+			nt := int(parseU(ops[p]))
+			p++
+			torn := map[string]*big.Int{}
+			for j := 0; j < nt; j++ {
+				m, _ := new(big.Int).SetString(ops[p+2], 16)
+				torn[fmt.Sprintf("%020d-%016x.wal", parseU(ops[p]), parseU(ops[p+1]))] = m
+				p += 3
+			}
 			i = p - 1
 			if r.cfs == nil {
 				return "badinput"
@@ -921,7 +951,17 @@ func (r *walRun) run() string {
 			r.alts = dedupAlts(alts)
 			r.stable = stableClone(st)
 			// torn batches: only the header chunk of the pending write persists (deterministic)
-			r.cfs = r.cfs.imageAt(k, keepFile, keepBatch, nil)
+			r.cfs = r.cfs.imageAt(k, keepFile, keepBatch, func(name string, nch int) []bool {
+				m := torn[name]
+				if m == nil {
+					return nil
+				}
+				b := make([]bool, nch)
+				for ch := 0; ch < nch; ch++ {
+					b[ch] = m.Bit(ch) == 1
+				}
+				return b
+			})
 			r.w = nil
 			r.afterCrash = true
 			r.faulted = false
